@@ -138,34 +138,52 @@ class World:
 
 # ------------------------------------------------------------------ (1) struct <-> members
 
+def _failure(exc, what):
+    """the exception a driver raises: two SECoP error classes or something that is no SECoPError at all"""
+    from frappy.errors import HardwareError, RangeError
+    if exc == 'badvalue':
+        return RangeError(what)
+    if exc == 'hardware':
+        return HardwareError(what)
+    return ValueError(what) if len(what) % 2 else OSError(what)
+
+
 @lru_cache(None)
 def _struct_class(layout, members):
     from frappy.core import IntRange, Module, Parameter
-    from frappy.errors import RangeError
     from frappy.extparams import StructParam
+
+    def touch(self, k):
+        """hardware access to member k (None: to the device as a whole): fails while a fault is armed"""
+        if self.fault is not None and k in (None, self.fault):
+            raise _failure(self.exc, 'no answer for %s' % self.fault)
 
     def store(self, v):
         """the hardware: clips at hwmax or refuses"""
         if v > self.hwmax and self.hwmode == 'refuse':
-            raise RangeError('the hardware refuses %r' % v)
+            raise _failure(self.exc, 'the hardware refuses %r' % v)
         return min(int(v), self.hwmax)
 
     ns = {'s': StructParam('linked struct', {k: Parameter('member ' + k, IntRange(0, 9)) for k in members},
                            'm_', readonly=False)}
     if layout == 'combined':
         def read_s(self):
+            touch(self, None)
             return dict(self.hw)
 
         def write_s(self, value):
+            touch(self, None)
             self.hw = {k: store(self, v) for k, v in value.items()}   # nothing is stored when one is refused
             return dict(self.hw)
         ns.update(read_s=read_s, write_s=write_s)
     else:
         for k in members:
             def rfunc(self, k=k):
+                touch(self, k)
                 return self.hw[k]
 
             def wfunc(self, value, k=k):
+                touch(self, k)
                 self.hw = dict(self.hw, **{k: store(self, value)})
                 return self.hw[k]
             ns['read_m_' + k] = rfunc
@@ -178,17 +196,18 @@ class StructWorld(World):
         super().__init__()
         self.members = tuple(sorted(init['exp']['hw']))
         self.layout = init['layout']
-        self.m = self.add('m', _struct_class(self.layout, self.members))
-        self.m.hw = {k: 0 for k in self.members}
-        self.m.hwmax = init['hwmax']
-        self.m.hwmode = init['hwmode']
-        self.startup(self.m)
+        self.m = m = self.add('m', _struct_class(self.layout, self.members))
+        m.hw = {k: 0 for k in self.members}
+        m.hwmax, m.hwmode, m.exc, m.fault = init['hwmax'], init['hwmode'], init['exc'], None
+        self.startup(m)
         self.connect()
 
     def obs(self):
         m = self.m
         self.drain()
         return {'hw': dict(m.hw), 'mem': {k: getattr(m, 'm_' + k) for k in self.members}, 'str': dict(m.s),
+                'merr': [k for k in self.members if m.parameters['m_' + k].readerror is not None],
+                'serr': m.parameters['s'].readerror is not None,
                 'vmem': {k: _int(self.seen(m, 'm_' + k)) for k in self.members}, 'vstr': self.struct(self.seen(m, 's'))}
 
     def struct(self, v):
@@ -197,14 +216,18 @@ class StructWorld(World):
     def step(self, a, via):
         m, act = self.m, a['act']
         rep = None
-        if act in ('ws', 'rs'):
-            rep = self.access(via, act[0], m, 's', a.get('v'))
-        elif act in ('wm', 'rm'):
-            rep = self.access(via, act[0], m, 'm_' + a['m'], a.get('v'))
-        elif act == 'as':
-            m.s = a['v']
-        elif act == 'am':
-            setattr(m, 'm_' + a['m'], a['v'])
+        m.fault = None if a.get('f', 'none') == 'none' else a['f']
+        try:
+            if act in ('ws', 'rs'):
+                rep = self.access(via, act[0], m, 's', a.get('v'))
+            elif act in ('wm', 'rm'):
+                rep = self.access(via, act[0], m, 'm_' + a['m'], a.get('v'))
+            elif act == 'as':
+                m.s = a['v']
+            elif act == 'am':
+                setattr(m, 'm_' + a['m'], a['v'])
+        finally:
+            m.fault = None
         o = self.obs()
         o['ok'] = rep is None or rep[0]
         if rep is not None:
@@ -214,7 +237,9 @@ class StructWorld(World):
 
     @staticmethod
     def expect(a, e):
-        x = {'hw': e['hw'], 'mem': e['mem'], 'str': e['str'], 'vmem': e['mem'], 'vstr': e['str'], 'ok': e['ok']}
+        x = {'hw': e['hw'], 'mem': e['mem'], 'str': e['str'], 'merr': sorted(e['merr']), 'serr': e['serr'],
+             'vmem': {k: NONE if k in e['merr'] else v for k, v in e['mem'].items()},
+             'vstr': {k: GARBAGE if e['serr'] else v for k, v in e['str'].items()}, 'ok': e['ok']}
         if a['act'] in ('ws', 'rs'):
             x['rep'] = e['str'] if e['ok'] else {k: GARBAGE for k in e['str']}
         elif a['act'] in ('wm', 'rm'):
@@ -223,15 +248,17 @@ class StructWorld(World):
 
     @staticmethod
     def symptom(a, o, prev):
-        if o['mem'] != o['str']:
+        shown = [k for k in o['mem'] if not o['serr'] and k not in o['merr']]
+        if any(o['mem'][k] != o['str'][k] for k in shown):
             return 'struct != members'
-        if o['vmem'] != o['mem'] or o['vstr'] != o['str']:
+        if (any(o['vmem'][k] != (NONE if k in o['merr'] else o['mem'][k]) for k in o['mem'])
+                or any(o['vstr'][k] != (GARBAGE if o['serr'] else o['str'][k]) for k in o['str'])):
             return 'stream != cache'
         return 'other'
 
     @staticmethod
     def layout_of(init):
-        return {'layout': init['layout'], 'hwmode': init['hwmode']}
+        return {'layout': init['layout'], 'hwmode': init['hwmode'], 'exc': init['exc']}
 
 
 # ------------------------------------------------------------------ (2) float <-> enum index
@@ -261,7 +288,6 @@ def _fe_labels(table, style):
 @lru_cache(None)
 def _fe_class(shape, mode, cap, table, style, iname):
     from frappy.core import Module
-    from frappy.errors import HardwareError
     from frappy.extparams import FloatEnumParam
     labels, unit = _fe_labels(table, style)
     kwds = {} if iname == 'r_idx' else {'idx_name': iname}
@@ -271,8 +297,8 @@ def _fe_class(shape, mode, cap, table, style, iname):
         """the driver: answers with the index the hardware is really on"""
         i = int(value)
         self.req = i
-        if i > cap and mode == 'raise':
-            raise HardwareError('range not available')
+        if i > cap and mode in ('raise', 'crash'):
+            raise _failure('hardware' if mode == 'raise' else 'other', 'range %d not available' % i)
         if i > cap and mode == 'clamp':
             i = cap
         self.hw = i
@@ -364,12 +390,11 @@ class FloatEnumWorld(World):
 # ------------------------------------------------------------------ (3) limit parameters
 
 @lru_cache(None)
-def _lim_class(kind, structure, forbidden, dlo, dhi, integer, pn, explicit):
+def _lim_class(kind, structure, forbidden, dlo, dhi, integer, pn, explicit, hexc):
     """pn: name of the limited parameter: a custom one ('p') or the predefined 'target' of a Writable
     explicit: the limit parameters are declared with their own datatype instead of inheriting it"""
     from frappy.core import FloatRange, IntRange, Module, Parameter, Writable
     from frappy.datatypes import LimitsType
-    from frappy.errors import RangeError
     from frappy.params import Limit
     scale = 1 if integer else TICK
     dt = IntRange(dlo, dhi) if integer else FloatRange(dlo * scale, dhi * scale)
@@ -387,7 +412,7 @@ def _lim_class(kind, structure, forbidden, dlo, dhi, integer, pn, explicit):
     if forbidden:
         def check(self, value):  # returns None: the automatic limit check still applies
             if value in [f * scale for f in forbidden]:
-                raise RangeError('value refused by the driver')
+                raise _failure(hexc, 'value refused by the driver')
         base['check_' + pn] = check
     if explicit:
         lims = {pn + k: Limit(datatype=LimitsType(dt.copy()) if k == '_limits' else dt.copy()) for k in limits}
@@ -426,7 +451,8 @@ class LimitsWorld(World):
                 cfg[pn + '_min'] = {'value': lo0 * self.scale}
             if self.kind in ('minmax', 'max') and (hi0 != self.dhi or explicit):
                 cfg[pn + '_max'] = {'value': hi0 * self.scale}
-        self.m = self.add('m', _lim_class(self.kind, structure, forbidden, self.dlo, self.dhi, self.integer, pn, explicit),
+        self.m = self.add('m', _lim_class(self.kind, structure, forbidden, self.dlo, self.dhi, self.integer, pn, explicit,
+                                              init.get('hexc', 'badvalue')),
                           **cfg)
         self.m.hw = self.dlo * self.scale
         self.startup(self.m)
@@ -502,12 +528,19 @@ def _ctl_classes(style):
     from frappy.core import FloatRange, Parameter, Writable
     from frappy.mixins import HasControlledBy, HasOutputModule
 
+    def crash(self):
+        """the hardware write of the target fails after control was switched: the driver may raise anything"""
+        exc, self.failnext = getattr(self, 'failnext', None), None
+        if exc:
+            raise _failure(exc, 'cannot set the target')
+
     class Out(HasControlledBy, Writable):
         value = Parameter(datatype=FloatRange())
         target = Parameter(datatype=FloatRange())
 
         def write_target(self, value):
             self.self_controlled()
+            crash(self)
             return value
 
     class Ctl(HasOutputModule, Writable):
@@ -517,11 +550,13 @@ def _ctl_classes(style):
         if style == 'always':
             def write_target(self, value):
                 self.activate_control()
+                crash(self)
                 return value
         else:
             def write_target(self, value):  # as frappy_psi.picontrol / mercury do it
                 if not self.control_active:
                     self.activate_control()
+                crash(self)
                 return value
     return Out, Ctl
 
@@ -563,7 +598,7 @@ class ControlWorld(World):
         built = self.ALL[:n1] + self.ALL[3:3 + n2]
         self.outs = {o: self.add(o, out) for o in self.OUTS[:2 if n2 else 1]}
         self.ctls = {c: self.add(c, ctl, output_module=self.OUT_OF[c]) for c in built}
-        self.count = 0
+        self.count, self.salt = 0, variant
         for m in list(self.outs.values()) + list(self.ctls.values()):
             self.startup(m)
         # two of three executions run between an earlier and a later node, the third one alone in its view
@@ -592,9 +627,12 @@ class ControlWorld(World):
         act = a['act']
         self.count += 1
         value = float(self.count)
+        exc = (None, None, 'badvalue', 'hardware', 'other', 'other')[(self.count * 7 + self.salt) % 6]
         if act == 'take':
+            self.ctls[a['c']].failnext = exc
             self.access(via, 'w', self.ctls[a['c']], 'target', value)
         elif act == 'self':
+            self.outs[a['o']].failnext = exc
             self.access(via, 'w', self.outs[a['o']], 'target', value)
         elif act == 'upd':
             self.outs[self.OUT_OF[a['c']]].update_target(a['c'], value)
@@ -705,8 +743,8 @@ def _replay_index(i):
                 'vias': [], 'variant': item[1], 'symptom': 'exception outside an access method: ' + type(e).__name__}
 
 
-def _parse_behaviours(r):
-    pat = '<<"BEH", "'
+def _parse_behaviours(r, tag='BEH'):
+    pat = '<<"%s", "' % tag
     res = []
     for line in r.out.splitlines():
         if line.startswith(pat) and line.endswith('">>'):
@@ -757,21 +795,24 @@ def _random_trace1(arg):
     fresh = False
     if sub == 'LinkedStruct':
         init = {'act': 'init', 'layout': rnd.choice(('combined', 'separate')), 'hwmax': 7,
-                'hwmode': rnd.choice(('clip', 'clip', 'refuse')),
+                'hwmode': rnd.choice(('clip', 'clip', 'refuse')), 'exc': rnd.choice(('badvalue', 'hardware', 'other')),
                 'exp': {'hw': {k: 0 for k in 'pqr'}}}
         mem = 'pqr'
+
+        def fault():
+            return rnd.choice(mem) if rnd.random() < 0.25 else 'none'
 
         def pick():
             r = rnd.random()
             sv = {k: rnd.randint(1, 9) for k in mem}
             if r < 0.25:
-                return {'act': 'wm', 'm': rnd.choice(mem), 'v': rnd.randint(1, 9)}
+                return {'act': 'wm', 'm': rnd.choice(mem), 'v': rnd.randint(1, 9), 'f': fault()}
             if r < 0.45:
-                return {'act': 'ws', 'v': sv}
+                return {'act': 'ws', 'v': sv, 'f': fault()}
             if r < 0.65:
-                return {'act': 'rm', 'm': rnd.choice(mem)}
+                return {'act': 'rm', 'm': rnd.choice(mem), 'f': fault()}
             if r < 0.8:
-                return {'act': 'rs'}
+                return {'act': 'rs', 'f': fault()}
             if r < 0.9:
                 return {'act': 'am', 'm': rnd.choice(mem), 'v': rnd.randint(1, 9)}
             return {'act': 'as', 'v': sv}
@@ -783,7 +824,7 @@ def _random_trace1(arg):
         fresh = shape == 'w' and rnd.random() < 0.5
         idxs = sorted(tables[tab])
         init = {'act': 'init', 'tab': tab, 'shape': shape, 'table': tables[tab], 'fresh': fresh,
-                'mode': rnd.choice(('echo', 'none', 'clamp', 'clamp', 'raise')), 'cap': idxs[min(1, len(idxs) - 1)]}
+                'mode': rnd.choice(('echo', 'none', 'clamp', 'clamp', 'raise', 'crash')), 'cap': idxs[min(1, len(idxs) - 1)]}
 
         def pick():
             r = rnd.random()
@@ -800,7 +841,7 @@ def _random_trace1(arg):
         kind = rnd.choice(('minmax', 'minmax', 'min', 'max', 'limits', 'limits'))
         lo0, hi0 = rnd.choice(((0, 8), (0, 8), (2, 6), (1, 8), (0, 5), (6, 2) if kind != 'limits' else (3, 3)))
         init = {'act': 'init', 'kind': kind, 'dlo': 0, 'dhi': 8,
-                'forbidden': rnd.choice(([], [], [3], [2, 5])),
+                'forbidden': rnd.choice(([], [], [3], [2, 5])), 'hexc': rnd.choice(('badvalue', 'hardware', 'other')),
                 'cfg': [lo0 if kind != 'max' else 0, hi0 if kind != 'min' else 8]}
         lim = {'minmax': ('min', 'max'), 'min': ('min',), 'max': ('max',), 'limits': ('limits',)}[kind]
 
@@ -827,6 +868,17 @@ def _random_trace1(arg):
     actions = [pick() for _ in range(n)]
     vias = _vias(sub, actions, 3, rnd)
     return _record(sub, init, actions, vias, variant, fresh, rnd)
+
+
+def _fault_case(arg):
+    """one operation sequence with faults enumerated by TLC (Gen_LinkedStruct / FGSpec) -> recorded execution"""
+    n, seed, seq = arg
+    try:
+        rnd = random.Random(seed)
+        init, actions = seq[0], seq[1:]
+        return _record('LinkedStruct', init, actions, _vias('LinkedStruct', actions, n, rnd), n)
+    except Exception as e:
+        return {'broken': 'exception outside an access method: ' + type(e).__name__, 'detail': repr(e)[:300]}
 
 
 def _clean(x):
@@ -872,6 +924,12 @@ def _trace_signature(sub, trace, l):
         sym = cls.symptom(a, ev, prev)
     sig = {'module': sub, 'op': ev.get('ev'), 'symptom': sym}
     sig.update(cls.layout_of(init))
+    if sub == 'LinkedStruct':       # history class: did a struct read fail since the last complete refresh?
+        for e in trace[1:max(l - 1, 1)]:
+            if e['ev'] == 'rs' and not e['ok']:
+                sig['after'] = 'failed struct read'
+            elif e['ev'] in ('rs', 'ws', 'as') and e['ok']:
+                sig.pop('after', None)
     if sub == 'LinkedFloatEnum' and ev.get('ev') == 'init':
         sig['fresh'] = bool(init.get('fresh'))
     return sig
@@ -900,6 +958,7 @@ def run(chk):
     cfgs = [(m, f'Gen_{m}_{c}.cfg') for c in (('quick',) if quick else ('thorough', 'thorough_wide')) for m in SUBS]
     gens = [(m, cfg, pool.submit(run_tlc, 'Gen_' + m, cfg, workers=1, timeout=1100, heap='3g' if quick else '5g'))
             for m, cfg in cfgs]
+    fgen = pool.submit(run_tlc, 'Gen_LinkedStruct', f'Gen_LinkedStruct_faults_{tier}.cfg', workers=1, timeout=900)
     # 3 random histories are recorded while the JVMs work
     ntr, ln = (150, 30) if quick else (1500, 40)
     targs = [(m, chk.seed * 7919 + i * 4 + k, ln) for k, m in enumerate(SUBS) for i in range(ntr)]
@@ -948,6 +1007,36 @@ def run(chk):
                 sig.update(WORLDS[sub].layout_of(init))
                 chk.violation(sig, {'sub': sub, 'init': init, 'actions': actions, **bad})
         del items[:], _ITEMS[:]
+    # 2b operation sequences with hardware faults: enumerated by TLC, executed, judged by Trace_LinkedStruct
+    r = fgen.result()
+    if r.violated or not r.ok:
+        raise MachineryError(f'fault sequence emission failed: {r.violated or r.error}\n{r.out[-2000:]}')
+    chk.add_tlc(r)
+    seqs = _parse_behaviours(r, 'SEQ')
+    r.out = ''
+    if not seqs:
+        raise MachineryError('Gen_LinkedStruct/FGSpec printed no sequence')
+    fargs = [(n, chk.seed * 104729 + n, q) for n, q in enumerate(seqs)]
+    ftraces = pool_map(_fault_case, fargs)
+    good = [i for i, tr in enumerate(ftraces) if not isinstance(tr, dict)]
+    fverdicts, st, tr = validate_traces('Trace_LinkedStruct', [ftraces[i] for i in good],
+                                        'Trace_LinkedStruct_faults.cfg', timeout=900)
+    chk.states += st
+    chk.transitions += tr
+    chk.notes['behaviours']['fault sequences'] = {'tlc_sequences': len(seqs)}
+    for i, trc in enumerate(ftraces):
+        chk.impl_traces += 1
+        chk.case(f'faults-{i}', True)
+        if isinstance(trc, dict):
+            chk.violation({'module': 'LinkedStruct', 'op': 'init', 'symptom': trc['broken'], 'clause': 'faults'},
+                          {'sub': 'LinkedStruct', 'sequence': seqs[i], **trc})
+    for k, v in fverdicts.items():
+        if v is not None:
+            trc = ftraces[good[k]]
+            sig = _trace_signature('LinkedStruct', trc, v[0])
+            sig['clause'] = 'faults'
+            chk.violation(sig, {'sub': 'LinkedStruct', 'trace': trc, 'failed_at': v[0], 'sequence': seqs[good[k]]})
+    chk.sample({'fault_sequence': seqs[len(seqs) // 3]}, limit=12)
     timing['gen+replay'] = round(time.time() - t0, 1)
     for m in SUBS:
         sel, fut = futs[m]
@@ -993,7 +1082,7 @@ def replay(chk, rep):
                 print('   expected one of', d['expected'])
                 break
     else:
-        again = _random_trace(tuple(d['args']))      # re-executed on the real modules
+        again = _fault_case((0, 0, d['sequence'])) if 'sequence' in d else _random_trace(tuple(d['args']))
         if isinstance(again, dict) or 'trace' not in d:
             print(again)
             return 0
